@@ -293,7 +293,21 @@ def run(fx, rep):
                 for v in o:
                     scan(v)
         scan(ib.raw['blocks'])
-        if hits and not ALLOWED8.match(F.norm_path(ib.path) if not ib.path.startswith('<') else ib.path):
+        okpath = ALLOWED8.match(F.norm_path(ib.path) if not ib.path.startswith('<') else ib.path)
+        # each reader may touch only its own part of the call: positional extractors the argument list and cursor (never the
+        # receiver), `This` the receiver, the resolvers the arguments and the parent context
+        per = None
+        if re.search(r'magic::arg_(value|expr)_from_context', ib.path):
+            per = {'args', 'arg_idx', 'ptx'}
+        elif 'magic::This<T>' in ib.path:
+            per = {'this'}
+        elif 'resolvers::Resolver>::resolve' in ib.path:
+            per = {'args', 'ptx'}
+        if okpath and per is not None and hits - per:
+            fn = re.sub(r'::\{closure#\d+\}', '/closure', F.norm_path(ib.path).split('::', 1)[-1])
+            rep.violation('R8', 'raw-call-access/%s/%s' % (re.sub(r'<.*?>', '', fn)[:60].replace(' ', ''), '+'.join(sorted(hits - per))), ib.loc(),
+                          '%s reads FunctionContext.%s, which is not its part of the call: a missing argument must be an error, not silently replaced by the receiver (or vice versa)' % (F.norm_path(ib.path), '/'.join(sorted(hits - per))))
+        if hits and not okpath:
             fn = re.sub(r'::\{closure#\d+\}', '/closure', F.norm_path(ib.path).split('::', 1)[-1])
             rep.violation('R8', 'raw-call-access/%s/%s' % (fn, '+'.join(sorted(hits))), ib.loc(),
                           '%s reads FunctionContext.%s directly: only the extractors may look at the unevaluated call (the first raw argument is the receiver in f(x, a) but the first argument in x.f(a))' % (F.norm_path(ib.path), '/'.join(sorted(hits))))
